@@ -23,3 +23,24 @@ Print Assumptions C15_axis_argument_is_strictly_ascending.
 (* non-vacuity: brackets at positions 1 and 3 of five dimensions *)
 Example C15_example : gen_expr_to_axis [false; true; false; true; false] = [1; 3].
 Proof. reflexivity. Qed.
+
+(* "keyword-only parameters of the function are forwarded verbatim and can never be captured as axis sizes".  The rule by
+   which a keyword of the call is attributed to the adapted function (kernel regenerated from
+   frontend/impl/_util.py:_make_iskwarg, Gen/GenKwarg.v - the if-chain over the parameters of inspect.signature): every
+   keyword-only parameter is a keyword of the function, with or without a default value; a **kwargs parameter is refused;
+   positional parameters are never keywords of the function.  The correspondence check calls adapted functions with
+   keyword-only parameters of both kinds and compares what they receive. *)
+From EinxV Require Import Gen.GenKwarg.
+Theorem C15_every_keyword_only_parameter_is_the_functions : forall has_default,
+  gen_kwarg_rule KEYWORD_ONLY has_default = KwFunction.
+Proof. intros []; reflexivity. Qed.
+Print Assumptions C15_every_keyword_only_parameter_is_the_functions.
+
+Theorem C15_other_parameters_are_never_captured : forall k has_default,
+  k <> KEYWORD_ONLY -> gen_kwarg_rule k has_default <> KwFunction.
+Proof. intros [] [] H; try discriminate; exfalso; apply H; reflexivity. Qed.
+Print Assumptions C15_other_parameters_are_never_captured.
+
+Theorem C15_var_keyword_functions_are_refused : forall has_default, gen_kwarg_rule VAR_KEYWORD has_default = KwRejected.
+Proof. intros []; reflexivity. Qed.
+Print Assumptions C15_var_keyword_functions_are_refused.
